@@ -45,7 +45,8 @@ OPS = st.one_of(
                                             "inplace": ip, "mask": sub,
                                             "extra": ex},
               ops.AX, st.sampled_from(["lengthen", "shorten", "swap", "mixed",
-                                       "empty", "collide", "identity"]),
+                                       "empty", "collide", "identity",
+                                       "blank"]),
               st.booleans(), st.booleans(), ops.MASK, st.booleans()),
     st.builds(lambda a, m, s, ip, sub, ex: {"kind": "update_ids", "axis": a,
                                             "style": m, "strict": s,
@@ -75,6 +76,9 @@ def cases(draw, tier):
                            for i in range(len(spec["samp"]))] \
             if pat in ("both", "samp-only") else None
     op = draw(OPS)
+    if draw(st.sampled_from([False] * 29 + [True])):
+        # one axis past 256 entries ('large axis' paths of the reorderings)
+        spec = draw(gen.big_specs(md="simple", values="dyadic"))
     if op["kind"] == "sort" and op["f"] in ("default", "sorted") and \
             draw(st.booleans()):
         # IDs that already sit in plain text order (or its reverse), which
@@ -371,9 +375,17 @@ def _update_ids(case, op, t, before, ref, rec):
         id_map = {ids[k]: ids[(k + 1) % len(ids)] for k in range(len(ids))}
     elif style == "collide":
         id_map = {i: "same" for i in ids}
+    elif style == "blank":
+        # shortened all the way: one ID becomes the empty text (which the
+        # table accepts as an ID like any other)
+        if "" in ids:
+            rec.skip("blank id already present")
+            return
+        k0 = sum(1 for x in op["mask"] if x) % len(ids)
+        id_map = {i: ("" if k == k0 else i) for k, i in enumerate(ids)}
     else:
         id_map = {i: _new_id(style, i, k) for k, i in enumerate(ids)}
-    if not strict and style not in ("empty", "collide", "swap"):
+    if not strict and style not in ("empty", "collide", "swap", "blank"):
         mk = ops.mask_for(len(ids), op["mask"])
         id_map = {i: v for (i, v), k in zip(list(id_map.items()), mk) if k}
     if op["extra"]:
@@ -394,7 +406,16 @@ def _update_ids(case, op, t, before, ref, rec):
         raise Violation("rename-not-refused", "update_ids(%r, strict=%r, "
                         "inplace=%r) on %r did not raise TableException" %
                         (id_map, strict, inplace, ids))
-    r = t.update_ids(dict(id_map), axis=axis, strict=strict, inplace=inplace)
+    try:
+        r = t.update_ids(dict(id_map), axis=axis, strict=strict,
+                         inplace=inplace)
+    except TableException:
+        if style != "blank":
+            raise
+        # refusing the empty text as an ID would be a policy, not a defect
+        _unchanged(t, before, "update_ids(blank refused)")
+        rec.cls("rename:blank-refused")
+        return
     if inplace and r is not t:
         raise Violation("inplace-identity", "update_ids(inplace=True) did "
                         "not return the receiver")
